@@ -7,6 +7,7 @@ import OcVerif.Driver.TLCache
 import OcVerif.Driver.Timeouts
 import OcVerif.Driver.RtWait
 import OcVerif.Driver.Co
+import OcVerif.Driver.Local
 /-!
 `ocmodel`: reads history lines `<comp> <id> : <body> => <implementation outputs>` on stdin,
 runs the Lean model on `<body>`, compares with the implementation's outputs and evaluates the
@@ -27,6 +28,7 @@ def dispatch (comp : String) : Option (String → String → Verdict) :=
   | "timeouts" => some Driver.Timeouts.drive
   | "rtwait" => some Driver.RtWait.drive
   | "co" => some Driver.Co.drive
+  | "local" => some Driver.Local.drive
   | _ => none
 
 def handle (line : String) : String :=
